@@ -176,8 +176,9 @@ class TGen:
             k = r.random()
             if k < 0.1 and depth < 2:
                 kids.append(self.form(depth + 1))          # nested form (only constructible through the API)
-            elif k < 0.2 and depth < 2:
-                kids.append(('e', 'iframe', {}, [('e', 'html', {}, [('e', 'body', {}, [self.form(depth + 1)])])]))
+            elif k < 0.25 and depth < 2:
+                inner = [self.form(depth + 1) if r.random() < 0.5 else self.control(depth + 1) for _ in range(r.randint(1, 3))]
+                kids.append(('e', 'iframe', {}, [('e', 'html', {}, [('e', 'body', {}, inner)])]))
             else:
                 kids.append(self.control(depth))
         return ('e', 'form', {}, kids)
@@ -187,6 +188,13 @@ class TGen:
         body = []
         for _ in range(r.randint(1, 4)):
             body.append(self.form() if r.random() < 0.7 else self.control(0))
+        if r.random() < 0.4:
+            # radios outside any form, in the outer document and in a nested one
+            inner = [self.control(1) for _ in range(r.randint(1, 3))] + [('e', 'div', {}, [
+                ('e', 'input', {'type': 'radio', 'name': 'g', **({'checked': ''} if r.random() < 0.5 else {})}, []),
+                ('e', 'input', {'type': 'radio', 'name': 'g'}, [])])]
+            body.append(('e', 'iframe', {}, [('e', 'html', {}, [('e', 'body', {}, inner)])]))
+            body.append(('e', 'input', {'type': 'radio', 'name': 'g', **({'checked': ''} if r.random() < 0.5 else {})}, []))
         if r.random() < 0.3:
             twins = [b for b in body if b[1] == 'form']
             if twins:
